@@ -4,5 +4,5 @@ cd "$(dirname "$0")/.."
 P=$1; l=$(echo $P | tr 'A-Z' 'a-z'); O=/tmp/wd_${P}_out
 cp $O/harness/props/$l.py harness/props/$l.py || exit 1
 [ -f $O/harness/history.py ] && cp $O/harness/history.py harness/history.py
-rm -rf /tmp/glue_int; /venv/bin/python /tmp/glue_out/integrate.py /verif /tmp/glue_int >/dev/null && [ -f /tmp/glue_int/harness/props/$l.py ] && cp /tmp/glue_int/harness/props/$l.py harness/props/$l.py
+G=/tmp/glue_int_$P; rm -rf $G; /venv/bin/python /tmp/glue_out/integrate.py /verif $G >/dev/null && [ -f $G/harness/props/$l.py ] && cp $G/harness/props/$l.py harness/props/$l.py; rm -rf $G
 for s in 0 1 2 3; do VERIF_SEED=$s ./check $P 2>&1 | grep -v "^KNOWN" | tail -2 | cut -c1-400; done
